@@ -321,6 +321,7 @@ static void run_sinks(Case c) {
     c.frag.assign(24, 1); run_case(c);
     c.frag = {-EINTR, 2, -EINTR, -EINTR, 1, 3, 1, -EINTR, 2}; run_case(c);
     c.frag.clear(); c.octet_src = true; run_case(c);
+    c.frag = {0, 1, 0, 0, 1, -EINTR, 1, 0, -EAGAIN, 0, 1}; run_case(c);   // an octet-style sink that sometimes takes nothing (0: "retry") or is interrupted
     vp::cls("encoder-into-sink-with-short-writes");
     // a sink that fails for good after j octets, for the first few j (inside the prefix, at its end, inside the payload)
     for (int j = 0; j <= 6; j++) { c.octet_src = (j & 1); c.frag.clear(); if (j & 2) c.frag.assign(8, 1); c.capdelta = j + 1; run_case(c); }
